@@ -322,6 +322,7 @@ func runSeqHistory(eng *kb.Engine, engName string, b *seqBehaviour, rnd *rand.Ra
 	wch, werr := ap.watchAll(wctx, env.Prefix+"/", b.Base+1)
 	env.Rec.Log(gate.Event{"e": "WatchReturn", "w": "w0", "prefix": 0, "start": gate.Clip(b.Base + 1), "ok": werr == nil})
 	var evlines []string
+	nsucc := 0 // successful writes so far
 	drain := func() {
 		if wch == nil {
 			return
@@ -406,6 +407,9 @@ func runSeqHistory(eng *kb.Engine, engName string, b *seqBehaviour, rnd *rand.Ra
 				"succ": r.Succ, "hdr": gate.Clip(r.Hdr), "kvrev": gate.Clip(r.KvRev), "kvval": r.KvVal, "err": r.Err})
 			transcript = append(transcript, fmt.Sprintf("%s k%d exp %d %q -> succ %v hdr %d kv %d %q err %q", o.Op, o.K, o.Exp, so.Val, r.Succ, r.Hdr, r.KvRev, r.KvVal, r.Err))
 			cur++
+			if r.Succ {
+				nsucc++
+			}
 			if r.Err != o.Err || (o.Err == "" && (r.Succ != o.Succ || r.Hdr != o.Hdr || r.KvRev != o.KvRev || (o.KvRev != 0 && r.KvVal != realVal(o.KvVal)))) {
 				notes = append(notes, fmt.Sprintf("op %d %s k%d exp %d: real %+v spec %+v", i, o.Op, o.K, o.Exp, r, o))
 			}
@@ -424,7 +428,12 @@ func runSeqHistory(eng *kb.Engine, engName string, b *seqBehaviour, rnd *rand.Ra
 			rd.sweep(rnd, b.NKeys, b.Base, cur, frac, opt.streams)
 		}
 	}
-	// the event stream is asynchronous: wait until nothing has arrived for a while
+	// the event stream is asynchronous: every successful write yields one event on this watch; wait for them (a
+	// fixed quiet period alone loses the last event when the machine is busy), then until nothing arrives for a while
+	for deadline := time.Now().Add(3 * time.Second); wch != nil && len(evlines) < nsucc && time.Now().Before(deadline); {
+		drain()
+		time.Sleep(200 * time.Microsecond)
+	}
 	for quiet, n0 := 0, -1; quiet < 10; {
 		drain()
 		if len(evlines) == n0 {
